@@ -1354,9 +1354,14 @@ async fn run_openresponses_agent_loop(
                 };
             }
             tool_call_count += 1;
+            // Arguments that are not JSON, or nest too deep for a frame to carry, stay text.
             let args_value = match serde_json::from_str::<Value>(&call.arguments) {
-                Ok(value) => value,
-                Err(_) => Value::String(call.arguments.clone()),
+                Ok(value)
+                    if rip_kernel::json_nesting(&value) <= rip_kernel::MAX_PAYLOAD_NESTING =>
+                {
+                    value
+                }
+                _ => Value::String(call.arguments.clone()),
             };
             let invocation = ToolInvocation {
                 name: call.name.clone(),
@@ -1639,7 +1644,10 @@ fn parse_action(input: &str) -> InputAction {
             return InputAction::Checkpoint(envelope.checkpoint);
         }
         if let Ok(command) = serde_json::from_str::<ToolCommand>(trimmed) {
-            return InputAction::Tool(command);
+            // Arguments too deep for a frame to carry: the input is not a tool command.
+            if rip_kernel::json_nesting(&command.args) <= rip_kernel::MAX_PAYLOAD_NESTING {
+                return InputAction::Tool(command);
+            }
         }
     }
 
